@@ -311,6 +311,17 @@ type TxResult struct {
 // registered on the app's own message service router, state committed to ctx only on success, panics
 // recovered as rejection. The message goes through a protobuf round trip first, as it would on the wire.
 func (w *World) RunTx(ctx sdk.Context, a Action) (res TxResult, herr error) {
+	return w.runTx(ctx, a, 0)
+}
+
+// RunTxLimited executes the transaction with a finite gas limit: when the limit is hit inside the handler (or inside a
+// hook the handler triggers) the transaction aborts by panic, as it does on a node; nothing of it may survive, in the
+// store or in the process.
+func (w *World) RunTxLimited(ctx sdk.Context, a Action, limit uint64) (res TxResult, herr error) {
+	return w.runTx(ctx, a, limit)
+}
+
+func (w *World) runTx(ctx sdk.Context, a Action, limit uint64) (res TxResult, herr error) {
 	if strings.HasPrefix(a.Act, "K") {
 		return w.runKeeper(ctx, a)
 	}
@@ -334,7 +345,11 @@ func (w *World) RunTx(ctx sdk.Context, a Action) (res TxResult, herr error) {
 		return res, fmt.Errorf("no handler for %s", method)
 	}
 	cctx, write := ctx.CacheContext()
-	cctx = cctx.WithEventManager(sdk.NewEventManager()).WithGasMeter(sdk.NewInfiniteGasMeter())
+	if limit > 0 {
+		cctx = cctx.WithEventManager(sdk.NewEventManager()).WithGasMeter(sdk.NewGasMeter(limit))
+	} else {
+		cctx = cctx.WithEventManager(sdk.NewEventManager()).WithGasMeter(sdk.NewInfiniteGasMeter())
+	}
 	func() {
 		defer func() {
 			if r := recover(); r != nil {
